@@ -4,6 +4,8 @@ import MtailVerif.Driver.FloatBits
 import MtailVerif.Model.VM
 import MtailVerif.Model.VMVerify
 import MtailVerif.Generated.VM
+import MtailVerif.Driver.AstWire
+import MtailVerif.Model.Lower
 /-! Interactive model server for the VM (`mtailmodel VMSRV`).  The Go harness writes commands on
     stdin, one per line; standard-library behaviour the model needs (regexp matching, number
     parsing and formatting, `math.Mod`/`Pow`, `strings.ToLower`/`ReplaceAll`, `time.Parse`, the
@@ -320,6 +322,71 @@ def queriesOf (tb : Table) (p : Prog) (inp : Input) (i : Instr) (t : Thread) (st
     | _ => []
   generic ++ specific
 
+
+/-! ### C01: lowering a checked AST, and the reference semantics -/
+
+def opcodeNum (op : Opcode) : Nat :=
+  let name := match (List.range Generated.VM.opcodeNames.length).find? (fun k =>
+      ((Generated.VM.opcodeNames[k]?).bind opcodeOfName) == some op) with
+    | some k => k
+    | none => 0
+  name
+
+def bits16 (b : UInt64) : String :=
+  let hex := Nat.toDigits 16 b.toNat
+  String.ofList (List.replicate (16 - hex.length) '0' ++ hex)
+
+def showOperand : Operand → String
+  | .none => "_" | .int n => s!"n{n}" | .bool b => if b then "b1" else "b0" | .i64 n => s!"i{n}"
+  | .f64 b => "f" ++ bits16 b | .dur n => s!"d{n}"
+
+def hxB (b : Bytes) : String := if b.isEmpty then "-" else Hex.encode b
+
+def showLowered (l : Lower.Lowered) : String :=
+  let code := if l.vm.code.isEmpty then "." else
+    ";".intercalate (l.vm.code.map fun i => s!"{opcodeNum i.op}:{showOperand i.arg}")
+  let strs := if l.vm.strs.isEmpty then "." else ",".intercalate (l.vm.strs.map hxB)
+  let ms := if l.decls.isEmpty then "." else
+    ";".intercalate (l.decls.map fun m =>
+      let rs := if m.rbits.isEmpty then "." else ",".intercalate (m.rbits.map fun r => bits16 r.1 ++ ":" ++ bits16 r.2)
+      s!"{m.typ}/{m.nkeys}/{rs}")
+  s!"{code} {strs} {l.vm.nre} {ms} " ++ ",".intercalate ("R" :: l.patterns.map hxB)
+
+def parsePos (s : String) : Option Ast.Pos :=
+  match s.splitOn ":" with
+  | [a, b, c] => do pure ⟨← a.toInt?, ← b.toInt?, ← c.toInt?⟩
+  | _ => none
+
+def parseRefs (s : String) : Lower.Refs :=
+  if s = "." then {} else
+  (s.splitOn ";").foldl (fun (r : Lower.Refs) e =>
+    match e.splitOn "=" with
+    | [k, v] =>
+      let kind := k.take 1
+      match parsePos (k.drop 1).toString with
+      | none => r
+      | some p =>
+        let f := v.splitOn ","
+        if kind.toString == "I" then
+          match f with
+          | [kd, decl, lv, elt] =>
+            { r with ids := (p, ⟨kd.toList.headD 'o', parsePos decl, lv == "1", AstWire.parseTy elt⟩) :: r.ids }
+          | _ => r
+        else if kind.toString == "C" then
+          match f with
+          | [key, addr] => { r with caps := (p, (parsePos key, addr.toInt?.getD (-1))) :: r.caps }
+          | _ => r
+        else if kind.toString == "D" then { r with decos := (p, parsePos v) :: r.decos }
+        else if kind.toString == "V" then { r with vars := (p, AstWire.parseTy v) :: r.vars }
+        else if kind.toString == "G" then
+          { r with groups := (p, if v == "-" then [] else f.map fun h => if h == "-" then "" else AstWire.strOf h) :: r.groups }
+        else r
+    | _ => r) {}
+
+def outcomeOf (o : Outcome) : String := match o with
+  | .done => "done" | .stopped => "stop" | .err e => s!"err:{repr e}" | .fault f => s!"fault:{repr f}"
+  | .fuel => "fuel"
+
 /-! ### the server -/
 
 structure Srv where
@@ -328,6 +395,7 @@ structure Srv where
   memo : Memo := []
   table : Table := {}
   since : Int := 0
+  ir : Option IR.Ss := none
 
 def showOutcome : Outcome → String
   | .done => "done" | .stopped => "stop" | .err e => s!"err:{repr e}" | .fault f => s!"fault:{repr f}"
@@ -376,6 +444,19 @@ partial def serve (inS outS : IO.FS.Stream) (srv : Srv) : IO Unit := do
       outS.putStrLn "P ok"; outS.flush
       serve inS outS { srv with prog := p, store := [], memo := [], table := {}, since := since.toInt?.getD 0 }
     | none => outS.putStrLn "P bad"; outS.flush; serve inS outS srv
+  | ["A", since, astS, refsS] =>
+    match AstWire.parseAst astS with
+    | none => outS.putStrLn "A unsupported model-cannot-read-ast"; outS.flush; serve inS outS srv
+    | some root =>
+      match Lower.lower (parseRefs refsS) root with
+      | .error e =>
+        if e.startsWith "RESOLUTION" then outS.putStrLn s!"A resolution {e}" else outS.putStrLn s!"A unsupported {e}"
+        outS.flush; serve inS outS srv
+      | .ok l =>
+        let cls := if IR.okSs l.prog then "okT" else "okN"
+        outS.putStrLn s!"A {cls} {showLowered l}"; outS.flush
+        serve inS outS { srv with prog := l.vm, ir := some l.prog, store := [], memo := [], table := {},
+                                  since := since.toInt?.getD 0 }
   | ["S", s] =>
     match parseStore srv.prog s with
     | some st => outS.putStrLn "S ok"; outS.flush; serve inS outS { srv with store := st }
@@ -387,7 +468,13 @@ partial def serve (inS outS : IO.FS.Stream) (srv : Srv) : IO Unit := do
       -- the wall clock is asked for once per line
       let srv := { srv with table := srv.table.erase "now" }
       let (out, srv') ← runLineIO inS outS srv ⟨f, l⟩ 100000 {}
-      outS.putStrLn s!"R {showOutcome out} {showStore srv'.since srv'.store} {srv'.memo.length}"
+      let sem := match srv.ir with
+        | none => ""
+        | some ir =>
+          -- the reference semantics, with the library answers the VM run collected
+          let r := IR.semLine (mkOracle srv'.table) srv.prog ir ⟨f, l⟩ srv.store srv.memo
+          s!" SEM {outcomeOf r.out} {showStore srv'.since r.store}"
+      outS.putStrLn (s!"R {showOutcome out} {showStore srv'.since srv'.store} {srv'.memo.length}" ++ sem)
       outS.flush
       serve inS outS srv'
     | _, _ => outS.putStrLn "R bad"; outS.flush; serve inS outS srv
